@@ -89,6 +89,8 @@ def cases(draw, tier="quick"):
             P["hs_slow"][c_[0]] = "only"
     n = draw(st.integers(0, 220))
     P["closing_drops"] = draw(st.booleans())   # graceful server closes pass through the WebSocket CLOSING state
+    # outages: a budget of reconnection attempts that fail at the TCP level, several in a row
+    P["re_refuse"] = draw(st.sampled_from([[0, 0], [0, 0], [3, 0], [0, 7], [12, 12]]))
     P["tape"] = draw(st.binary(min_size=n, max_size=n))
     return P
 
